@@ -111,6 +111,18 @@ pub fn gen_c03(rng: &Rng, tier: Tier) -> ReadScn {
         let n = input.iter().filter(|x| **x == if fmt == Fmt::Fasta { b'>' } else { b'@' }).count();
         return ReadScn { fmt, input, cfgs: vec![a, b], ops: ops_next_to_end(n), mon: Monitors::default(), profile: if big { "default_capacity_short_reads".into() } else { "interrupt_storm".into() } };
     }
+    if rng.chance(1, 1500) {
+        // one record beyond 64 KiB / 1 MiB / 8 MiB: a capacity around that size against another one
+        let (input, class, t) = huge_input(rng, fmt);
+        let a = huge_cfg(rng, t, input.len());
+        let mut b = huge_cfg(rng, t, input.len());
+        if rng.chance(1, 2) {
+            b.cap = if rng.chance(1, 2) { rng.range(3, 400) } else { input.len() + 2 };
+        }
+        let n = input.iter().filter(|x| **x == if fmt == Fmt::Fasta { b'>' } else { b'@' }).count() + 3;
+        let ops = if rng.chance(1, 4) { vec![Op::ReadSet(0); n] } else { ops_next_to_end(n) };
+        return ReadScn { fmt, input, cfgs: vec![a, b], ops, mon: Monitors::default(), profile: class };
+    }
     if rng.chance(1, 12) {
         // limited policies whose limit just permits the needed size: valid inputs only, the
         // largest raw record extent is known from the generator's own record boundaries
